@@ -26,7 +26,7 @@ func (*c02) Rule() string {
 
 func (k *c02) Setup(c *core.Ctx) (int, error) {
 	k.combos = c.N(12, 40)
-	return c.N(150, 2000), nil
+	return c.N(600, 5000), nil
 }
 
 func (*c02) Finish(c *core.Ctx) {
